@@ -13,6 +13,7 @@ CONSTANTS
   Witness = "none"
   MaxId = 1000000
   MaxJobs = 8
+  MaxFault = 1000
   MaxCrash = 1000
   Forge = {}
   TamperOn = FALSE
